@@ -84,7 +84,7 @@ def run(rep, model, tier, seed, broken=()):
         ct.dist(rep, case, "names")
         rep.count_case(json.dumps(treeh.case_json(case), sort_keys=True, default=str),
                        "tree" not in case or sum(1 for _ in treeh.walk_tree(case["tree"])) >= 3)
-        prob = compare(tr, ir, mv, tr.case) or frame_oracle(ir, tr.case)
+        prob = compare(tr, ir, mv, tr.case) or (frame_oracle(ir, tr.case) if ct.tree_ok(case) else None)
         if prob:
             if ct.tree_ok(case):
                 nbad += 1
